@@ -109,7 +109,7 @@ func VH23a_dialer() {
 	}
 	// inbound
 	if proto == "pair" || proto == "sub" || proto == "bus" || proto == "xpair" {
-		in := verif.Bytes("in", 1+verif.Choice("ilen", 2))
+		in := verif.Bytes("in", verif.Choice("ilen", 3)) // 0, 1 or 2 bytes: an empty frame is a message too
 		wire := in
 		st.PeerSend(websocket.BinaryMessage, wire)
 		var got []byte
